@@ -74,95 +74,109 @@ def aliveFuts (s : State) (r : Role) : Nat :=
     one of them is alive. -/
 def handleFree (s : State) (side : Side) : Bool :=
   let live := match side with | .send => s.liveS | .recv => s.liveR
-  live > 1 || (live == 1 && aliveFuts s side == 0)
+  live > 1 || (live == 1 && s.aliveSigs side == 0)
+
+/-- On one thread a hand-off is completed by the caller before it returns: run the pending
+    final stores (`Label.finalize`) of every claimed waiter. -/
+def settle (v : Variant) (s : State) : State :=
+  (List.range s.sigs.length).foldl (fun s i =>
+    match step v s (.finalize i) with
+    | some (s1, _) => s1
+    | none => s) s
+
+/-- One atomic step followed by the caller's own pending final stores. -/
+def stepS (v : Variant) (s : State) (l : Label) : Option (State × Res) :=
+  match step v s l with
+  | some (s1, r) => some (settle v s1, r)
+  | none => none
 
 /-- Text of the op as sent to the Rust driver, the model's result, and the new
     state.  `none`: the op is not enabled (or would block the only thread). -/
 def seqStep (v : Variant) (s : State) : SeqOp → Option (State × String × Res)
   | .send m =>
-    match step v s (.send m .sync false) with
+    match stepS v s (.send m .sync false) with
     | some (_, .blocked _) => none
     | some (s1, r) => some (s1, s!"send {m}", r)
     | none => none
   | .sendT m opt =>
     let name := if opt then "sendot" else "sendt"
-    match step v s (.send m .timed opt) with
+    match stepS v s (.send m .timed opt) with
     | some (s1, .blocked i) =>
-      match step v s1 (.expire i) with
+      match stepS v s1 (.expire i) with
       | some (s2, r) => some (s2, s!"{name} {m} 0", r)
       | none => none
     | some (s1, r) => some (s1, s!"{name} {m} L", r)
     | none => none
   | .trySend m opt rt =>
-    match step v s (.trySend m opt rt) with
+    match stepS v s (.trySend m opt rt) with
     | some (s1, r) => some (s1, s!"try {m} {bStr opt} {bStr rt}", r)
     | none => none
   | .recv =>
-    match step v s (.recv .sync false) with
+    match stepS v s (.recv .sync false) with
     | some (_, .blocked _) => none
     | some (s1, r) => some (s1, "recv", r)
     | none => none
   | .recvT =>
-    match step v s (.recv .timed false) with
+    match stepS v s (.recv .timed false) with
     | some (s1, .blocked i) =>
-      match step v s1 (.expire i) with
+      match stepS v s1 (.expire i) with
       | some (s2, r) => some (s2, "recvt 0", r)
       | none => none
     | some (s1, r) => some (s1, "recvt L", r)
     | none => none
   | .tryRecv rt =>
-    match step v s (.tryRecv rt) with
+    match stepS v s (.tryRecv rt) with
     | some (s1, r) => some (s1, s!"tryr {bStr rt}", r)
     | none => none
   | .drain vk =>
-    match step v s .drain with
+    match stepS v s .drain with
     | some (s1, r) => some (s1, s!"drain {vk}", r)
     | none => none
   | .asend m =>
-    match step v s (.newSendFut m) with
+    match stepS v s (.newSendFut m) with
     | some (s1, .num f) => some (s1, s!"asend {f} {m}", .unit)
     | _ => none
   | .pollS f w =>
-    match step v s (.pollSend f w) with
+    match stepS v s (.pollSend f w) with
     | some (_, .spin) => none
     | some (s1, r) => some (s1, s!"polls {f} {w}", r)
     | none => none
   | .dropSF f =>
-    match step v s (.dropSendFut f) with
+    match stepS v s (.dropSendFut f) with
     | some (_, .spin) => none
     | some (s1, r) => some (s1, s!"dropsf {f}", r)
     | none => none
   | .arecv stream =>
-    match step v s (.newRecvFut stream) with
+    match stepS v s (.newRecvFut stream) with
     | some (s1, .num f) => some (s1, (if stream then s!"stream {f}" else s!"arecv {f}"), .unit)
     | _ => none
   | .pollR f w =>
-    match step v s (.pollRecv f w) with
+    match stepS v s (.pollRecv f w) with
     | some (_, .spin) => none
     | some (s1, r) => some (s1, s!"pollr {f} {w}", r)
     | none => none
   | .dropRF f =>
-    match step v s (.dropRecvFut f) with
+    match stepS v s (.dropRecvFut f) with
     | some (_, .spin) => none
     | some (s1, r) => some (s1, s!"droprf {f}", r)
     | none => none
   | .clone side same =>
-    match step v s (.clone side) with
+    match stepS v s (.clone side) with
     | some (s1, r) => some (s1, s!"clone {sideStr side} {bStr same}", r)
     | none => none
   | .dropH side =>
     if !handleFree s side then none
-    else match step v s (.dropHandle side) with
+    else match stepS v s (.dropHandle side) with
       | some (s1, r) => some (s1, s!"drop {sideStr side}", r)
       | none => none
   | .conv side =>
     if !handleFree s side then none
-    else match step v s (.convert side) with
+    else match stepS v s (.convert side) with
       | some (s1, r) => some (s1, s!"conv {sideStr side}", r)
       | none => none
   | .close side =>
     if (match side with | .send => s.liveS | .recv => s.liveR) = 0 then none
-    else match step v s .close with
+    else match stepS v s .close with
       | some (s1, r) => some (s1, s!"close {sideStr side}", r)
       | none => none
   | .obs l side =>
@@ -173,12 +187,12 @@ def seqStep (v : Variant) (s : State) : SeqOp → Option (State × String × Res
         | l => l
       match l' with
       | .isTerminated => if side = .send then none else
-          match step v s l' with
+          match stepS v s l' with
           | some (s1, r) => some (s1, s!"isterm r", r)
           | none => none
       | .len | .isEmpty | .isFull | .capacity | .isBounded | .senderCount | .receiverCount
       | .isClosed | .isDisconnected _ =>
-        match step v s l' with
+        match stepS v s l' with
         | some (s1, r) => some (s1, s!"{obsName l'} {sideStr side}", r)
         | none => none
       | _ => none
